@@ -175,6 +175,7 @@ PROPS["C01"] = {"units": [
     plain_unit("regress", "vnete2e", "^TestRegressC01", overlay="plain"),
     rapid_unit("delivery", "vnete2e", "^TestC01Delivery$", 1000, 16 * 5000, overlay="plain"),
     rapid_unit("schedules", "vnete2e", "^TestC01Schedules$", 150, 16 * 1200, overlay="full", tags=["verifsched"]),
+    rapid_unit("bare-schedules", "vnete2e", "^TestC01BareSchedules$", 300, 16 * 2000, overlay="full", tags=["verifsched"]),
     rapid_unit("nat-port-pressure", "vnete2e", "^TestC01PortPressure$", 3, 16 * 8, overlay="plain", shrinktime="1s"),
     rapid_unit("bounded-queue", "vnete2e", "^TestC01QueueCapacity$", 25, 16 * 300, overlay="plain", shrinktime="3s"),
 ]}
